@@ -2,7 +2,7 @@
 import numpy as np
 import pandas as pd
 
-from .. import common
+from .. import common, checklib
 
 LEVEL = "exploration"
 RHS = ["x", "1", "0 + x", "g2", "x + g2", "x*g2", "(1|g2)", "x + (x|g2)"]
@@ -44,7 +44,14 @@ FORMS = ["y", "np.log(trials)", "s", "sp", "c", "o", "s[a]", "s['b']", "sp['two 
          "s[zzz]", "prop(k, trials)", "p(k, trials)", "proportion(k, trials)", "prop(k, 12)"]
 
 
+def PROOFS():
+    from ..contracts import transforms_c
+    T = "formulae.transforms."
+    return [("vf.contracts.transforms_c", [T + "Proportion.__init__", T + "Proportion.eval"])]
+
+
 def run(report, findings):
+    checklib.run_proofs(report, "C15", PROOFS())
     import logging
     import warnings
     logging.getLogger("formulae").setLevel(logging.CRITICAL)
